@@ -1946,6 +1946,40 @@ def _truthiness(e) -> Optional[bool]:
     return None
 
 
+def default_then_override(fn_node) -> int:
+    """``v = K`` (a constant) directly followed by ``if c: ...; v = E`` without else, c not reading v: the default moves into
+    an else branch, so that every branch of the if ends with its own definition of v (the shape flag threading works on)."""
+    done = 0
+    for node in ast.walk(fn_node):
+        for fld in ("body", "orelse", "finalbody"):
+            blk = getattr(node, fld, None)
+            if not (isinstance(blk, list) and blk and isinstance(blk[0], ast.stmt)):
+                continue
+            i = 0
+            while i + 1 < len(blk):
+                a, b = blk[i], blk[i + 1]
+                i += 1
+                if not (isinstance(a, ast.Assign) and len(a.targets) == 1 and isinstance(a.targets[0], ast.Name) and isinstance(a.value, ast.Constant)):
+                    continue
+                v = a.targets[0].id
+                if not (isinstance(b, ast.If) and not b.orelse and b.body):
+                    continue
+                last = b.body[-1]
+                if not (isinstance(last, ast.Assign) and len(last.targets) == 1 and isinstance(last.targets[0], ast.Name) and last.targets[0].id == v):
+                    continue
+                # v is mentioned nowhere else inside the if (neither its test nor the rest of its body reads the default)
+                others = [n for n in ast.walk(b) if isinstance(n, ast.Name) and n.id == v and n is not last.targets[0]]
+                if others:
+                    continue
+                b.orelse = [a]
+                del blk[i - 1]
+                i -= 1
+                done += 1
+    if done:
+        ast.fix_missing_locations(fn_node)
+    return done
+
+
 def thread_none_tests(fn_node) -> int:
     """``if c: ..; v = None  else: ..; v = (a, b)`` directly followed by ``if v is not None: S1 [else: S2]``: the second test
     is decided on every path of the first statement, so S1 / S2 move to the ends of those paths (and ``return v`` right
@@ -1992,6 +2026,15 @@ def thread_none_tests(fn_node) -> int:
                     positive_is_body = isinstance(t.ops[0], ast.Is) != neg
                 elif isinstance(t, ast.Name):
                     var, decide, allow_keep = t.id, _truthiness, True
+                    positive_is_body = not neg
+                elif (isinstance(t, ast.Compare) and len(t.ops) == 1 and isinstance(t.ops[0], (ast.Gt, ast.NotEq)) and isinstance(t.left, ast.Call) and isinstance(t.left.func, ast.Name)
+                      and t.left.func.id == "len" and len(t.left.args) == 1 and isinstance(t.left.args[0], ast.Name) and isinstance(t.comparators[0], ast.Constant) and t.comparators[0].value == 0):
+                    # len(msg) > 0 with msg a string literal on every path
+                    var, decide, allow_keep = t.left.args[0].id, (lambda e_: bool(e_.value) if isinstance(e_, ast.Constant) and isinstance(e_.value, str) else None), False
+                    positive_is_body = not neg
+                elif (isinstance(t, ast.Compare) and len(t.ops) == 1 and isinstance(t.ops[0], ast.NotEq) and isinstance(t.left, ast.Name) and isinstance(t.comparators[0], ast.Constant)
+                      and t.comparators[0].value == ""):
+                    var, decide, allow_keep = t.left.id, (lambda e_: bool(e_.value) if isinstance(e_, ast.Constant) and isinstance(e_.value, str) else None), False
                     positive_is_body = not neg
                 else:
                     continue
@@ -2089,7 +2132,10 @@ def normalise(prog: Program) -> Tuple[Program, List[str]]:
             changed_alias = True
             log.append(f"{fn.qualname} (container aliases {', '.join(al)} expanded)")
         if body_hash(fn.node) not in _inventory()[1]:
+            if default_then_override(fn.node):
+                changed_alias = True
             nt = thread_none_tests(fn.node)
+            nt += thread_none_tests(fn.node)  # a second flag set by the branches the first threading produced
             if nt:
                 ast.fix_missing_locations(fn.node)
                 changed_alias = True
